@@ -85,6 +85,11 @@ fn pdf_block_short_input_is_an_error() {
     let t2 = [2.0];                                          // not even all the counts
     let r2 = pdf_block(SIn { t: &t2, pos: 0 }, &trees, 3);
     assert!(r2.is_err());
+    // no tree: no count is read, nothing is consumed
+    let t3 = [7.0, 7.0];
+    let no_trees: Vec<u8> = vec![];
+    let r3 = pdf_block(SIn { t: &t3, pos: 0 }, &no_trees, 3);
+    match &r3 { Ok((rest, pdf)) => assert!(rest.pos == 0 && pdf.is_empty()), Err(_) => assert!(false) }
     kani::cover!(true);
-    std::mem::forget((r, r2));
+    std::mem::forget((r, r2, r3));
 }
